@@ -138,6 +138,8 @@ def normalise_tree(tree: ast.AST) -> None:
     """Semantics-preserving normal form the rules are written against (so that they do not depend on these choices):
        N1  `x = E` immediately followed by `return x`, x used nowhere else   ->  `return E`
        N2  `if not A: B else: C` (a real else, not an elif)                  ->  `if A: C else: B`
+       N3  'a' + f'{x}' + 'b'                                                ->  f'a{x}b'
+       N4  `CONST == x` (constant-like operand on the left of == != is is not) ->  `x == CONST`
     Node positions of the kept nodes are unchanged."""
     for fn in [n for n in ast.walk(tree) if isinstance(n, (ast.FunctionDef, ast.AsyncFunctionDef))]:
         counts: Dict[str, int] = {}
@@ -172,6 +174,47 @@ def normalise_tree(tree: ast.AST) -> None:
                 not (len(n.orelse) == 1 and isinstance(n.orelse[0], ast.If)):
             n.test = n.test.operand
             n.body, n.orelse = n.orelse, n.body
+
+    # N3  concatenation of string literals / f-strings  ->  one f-string   ('a' + f'{x}' + 'b'  ->  f'a{x}b')
+    def is_text(e):
+        return isinstance(e, ast.JoinedStr) or (isinstance(e, ast.Constant) and isinstance(e.value, str))
+
+    class Fold(ast.NodeTransformer):
+        def visit_BinOp(self, node):
+            self.generic_visit(node)
+            if isinstance(node.op, ast.Add) and is_text(node.left) and is_text(node.right):
+                vals = []
+                for side in (node.left, node.right):
+                    vals.extend(side.values if isinstance(side, ast.JoinedStr) else [side])
+                merged = []
+                for v in vals:
+                    if isinstance(v, ast.Constant) and merged and isinstance(merged[-1], ast.Constant):
+                        merged[-1] = ast.copy_location(ast.Constant(value=merged[-1].value + v.value), merged[-1])
+                    else:
+                        merged.append(v)
+                if all(isinstance(v, ast.Constant) for v in merged):
+                    return ast.copy_location(ast.Constant(value=''.join(v.value for v in merged)), node)
+                return ast.copy_location(ast.JoinedStr(values=merged), node)
+            return node
+    Fold().visit(tree)
+
+    # N4  `CONST == x` / `CONST != x` / `None is x`  ->  `x == CONST` ...   (the constant-like operand on the right)
+    def const_like(e) -> bool:
+        if isinstance(e, ast.Constant):
+            return True
+        if isinstance(e, ast.Name):
+            return e.id.isupper()
+        if isinstance(e, ast.Attribute):
+            owner = e.value.attr if isinstance(e.value, ast.Attribute) else e.value.id if isinstance(e.value, ast.Name) else ''
+            return e.attr.isupper() and owner[:1].isupper()      # Class.MEMBER, module.Class.MEMBER
+        if isinstance(e, ast.UnaryOp) and isinstance(e.op, ast.USub):
+            return const_like(e.operand)
+        return False
+
+    for n in ast.walk(tree):
+        if isinstance(n, ast.Compare) and len(n.ops) == 1 and isinstance(n.ops[0], (ast.Eq, ast.NotEq, ast.Is, ast.IsNot)) and \
+                const_like(n.left) and not const_like(n.comparators[0]):
+            n.left, n.comparators[0] = n.comparators[0], n.left
 
 
 class Program:
@@ -275,6 +318,53 @@ class Program:
                 for stmt in cls.node.body:
                     if isinstance(stmt, ast.Assign) and len(stmt.targets) == 1 and isinstance(stmt.targets[0], ast.Name):
                         cls.enum_members[stmt.targets[0].id] = stmt.value
+        self._normalise_ctor_keywords()
+
+    def bind_call(self, mod: Module, call: ast.Call) -> Dict[str, ast.expr]:
+        """parameter / field name -> argument expression of a call of a package class or function, however the source
+        spells it (positional or keyword).  Unresolved callees: the keywords only."""
+        out: Dict[str, ast.expr] = {}
+        sym = self.resolve_expr_symbol(mod, call.func)
+        names: List[str] = []
+        if isinstance(sym, ClassInfo):
+            init = self.lookup_method(sym, '__init__')
+            names = [a.arg for a in init.params()][1:] if init is not None else list(self.class_fields(sym))
+        elif isinstance(sym, FuncInfo):
+            names = [a.arg for a in sym.params()]
+            if sym.cls is not None and not sym.is_static and names[:1] in (['self'], ['cls']) and not isinstance(
+                    self.resolve_expr_symbol(mod, getattr(call.func, 'value', call.func)), ClassInfo):
+                names = names[1:]
+        for i, a in enumerate(call.args):
+            if isinstance(a, ast.Starred):
+                break
+            if i < len(names):
+                out[names[i]] = a
+        for k in call.keywords:
+            if k.arg:
+                out[k.arg] = k.value
+        return out
+
+    def _normalise_ctor_keywords(self):
+        """N5  constructor call of a package dataclass (generated __init__): the keyword arguments that continue the
+        positional ones in field order become positional -  `CppPorts(ports=x)` -> `CppPorts(x)`.  The rules read the
+        leading fields positionally and the rest by keyword, whichever way the source spells them."""
+        for mod in self.modules.values():
+            for n in ast.walk(mod.tree):
+                if not isinstance(n, ast.Call) or not n.keywords or any(k.arg is None for k in n.keywords) or \
+                        any(isinstance(a, ast.Starred) for a in n.args):
+                    continue
+                sym = self.resolve_expr_symbol(mod, n.func)
+                if not isinstance(sym, ClassInfo) or not sym.is_dataclass or self.lookup_method(sym, '__init__') is not None:
+                    continue
+                fields = list(self.class_fields(sym))
+                kw = {k.arg: k for k in n.keywords}
+                i = len(n.args)
+                while i < len(fields) and fields[i] in kw:
+                    k = kw.pop(fields[i])
+                    n.args.append(k.value)
+                    self._parents[id(k.value)] = n
+                    n.keywords.remove(k)
+                    i += 1
 
     def _index_class(self, mod: Module, node: ast.ClassDef):
         cls = ClassInfo(node.name, mod, node)
@@ -1012,7 +1102,8 @@ class TypeEnv:
 
 # standard-library calls whose result is an opaque library object (its methods are library code, never package methods)
 EXT_OBJECT_FACTORIES = {'re.compile', 'collections.deque', 'logging.getLogger', 'hashlib.md5', 'hashlib.sha1', 'hashlib.sha256',
-                        'threading.Lock', 'threading.RLock'}
+                        'threading.Lock', 'threading.RLock', 'pathlib.Path', 'pathlib.PurePath', 'pathlib.PurePosixPath',
+                        'pathlib.PureWindowsPath', 'pathlib.PosixPath', 'pathlib.WindowsPath'}
 
 BUILTIN_METHOD_NAMES = {
     # str
@@ -1052,6 +1143,75 @@ class CallGraph:
         self.n_attr_by_type = 0
         for fn in prog.all_functions():
             self._build(fn)
+        self.refined_params: Dict[str, Dict[str, tuple]] = {}
+        for _round in range(2):
+            if not self._refine_untyped_params():
+                break
+
+    def _refine_untyped_params(self) -> bool:
+        """An unannotated parameter that is stringified (`str(p)` / f-string hole) would reach every __str__ of the package.
+        When the function is only ever *called* (never handed around as a value) and every call site inside the package
+        passes a value of known type, the parameter has the union of those types on every path that starts at a package
+        entry point.  (Callers outside the package are not on such a path.)"""
+        prog = self.prog
+        cands = [fn for fn in prog.all_functions()
+                 if fn.parent is None and any(k.endswith('-any') for _c, _n, k in self.edges.get(fn.fq, []))]
+        if not cands:
+            return False
+        sites: Dict[str, List[Tuple[FuncInfo, ast.Call]]] = {}
+        for fq, edges in self.edges.items():
+            for c, n, k in edges:
+                if k == 'call' and isinstance(n, ast.Call):
+                    sites.setdefault(c.fq, []).append((prog.functions[fq], n))
+        value_uses: Set[str] = set()
+        for f in prog.all_functions():
+            for n in iter_own_nodes(f.node):
+                if isinstance(n, (ast.Name, ast.Attribute)) and isinstance(getattr(n, 'ctx', None), ast.Load):
+                    par = prog.parent(n)
+                    if not (isinstance(par, ast.Call) and par.func is n):
+                        value_uses.add(n.id if isinstance(n, ast.Name) else n.attr)
+        changed = False
+        for fn in cands:
+            ss = sites.get(fn.fq, [])
+            if not ss or fn.name in value_uses or fn.node.args.vararg or fn.node.args.kwarg:
+                continue
+            params = fn.params()
+            bound = fn.cls is not None and not fn.is_static and params and params[0].arg in ('self', 'cls')
+            env = self.env(fn)
+            pos = list(fn.node.args.posonlyargs) + list(fn.node.args.args)
+            defaults = dict(zip([a.arg for a in pos[len(pos) - len(fn.node.args.defaults):]], fn.node.args.defaults))
+            defaults.update({a.arg: d for a, d in zip(fn.node.args.kwonlyargs, fn.node.args.kw_defaults) if d is not None})
+            for i, a in enumerate(params):
+                if (bound and i == 0) or a.annotation is not None or env.vars.get(a.arg, ANY) != ANY:
+                    continue
+                types: List[tuple] = []
+                for caller, call in ss:
+                    if any(isinstance(x, ast.Starred) for x in call.args) or any(k.arg is None for k in call.keywords):
+                        types = []
+                        break
+                    shift = 1 if bound and isinstance(call.func, ast.Attribute) and not isinstance(
+                        prog.resolve_expr_symbol(caller.module, call.func.value), ClassInfo) else 0
+                    j = i - shift
+                    arg = call.args[j] if 0 <= j < len(call.args) else next((k.value for k in call.keywords if k.arg == a.arg), None)
+                    if arg is None:
+                        arg = defaults.get(a.arg)
+                    if arg is None:
+                        types = []
+                        break
+                    t = self.env(caller).type_of(arg)
+                    if strip_opt(t) == ANY:
+                        types = []
+                        break
+                    types.append(t)
+                if types:
+                    env.vars[a.arg] = union(types)
+                    self.refined_params.setdefault(fn.fq, {})[a.arg] = env.vars[a.arg]
+                    changed = True
+            if fn.fq in self.refined_params:
+                saved = (self.n_attr_calls, self.n_attr_by_type)
+                self._build(fn)
+                self.n_attr_calls, self.n_attr_by_type = saved
+        return changed
 
     def env(self, fn: FuncInfo) -> TypeEnv:
         if fn.fq not in self.envs:
